@@ -85,4 +85,21 @@ def scriptPubKey (k : Kind) (h : Bytes) : Bytes :=
   | .p2wpkh => [0x00, 0x14] ++ h                           -- 0 <20>
   | .p2wsh => [0x00, 0x20] ++ h                            -- 0 <32>
 
+/-! ### reference key export formats (Bitcoin wiki "Wallet import format", BIP32 "Serialization format") -/
+
+/-- big-endian bytes of a number, most significant first, exactly `k` of them -/
+def be : Nat → Nat → Bytes
+  | 0, _ => []
+  | k + 1, n => be k (n / 256) ++ [UInt8.ofNat (n % 256)]
+
+/-- WIF: Base58Check of `version ‖ key ‖ (01 if the public key is compressed)` -/
+def wif (dsha4 : Bytes → Bytes) (version : Nat) (key : Bytes) (compressed : Bool) : Bytes :=
+  base58check dsha4 ([UInt8.ofNat version] ++ key ++ (if compressed then [0x01] else []))
+
+/-- BIP32: Base58Check of `version(4) ‖ depth(1) ‖ parent fingerprint(4) ‖ child number(4) ‖
+    chain code(32) ‖ key data(33: 00 ‖ k for private keys, the compressed point for public keys)` -/
+def xkey (dsha4 : Bytes → Bytes) (version depth : Nat) (fingerprint : Bytes) (childNumber : Nat)
+    (chainCode keyData : Bytes) : Bytes :=
+  base58check dsha4 (be 4 version ++ [UInt8.ofNat depth] ++ fingerprint ++ be 4 childNumber ++ chainCode ++ keyData)
+
 end BtcVerif.Spec.Address
